@@ -638,7 +638,7 @@ def native_replay(u, inputs, outdir, tag):
     return rc, out
 
 
-def _replay_search(exe, inputs, tries=300):
+def _replay_search(exe, inputs, tries=450):
     import random, struct
     rnd = random.Random(12345)
     rc, so, se, dt = sh([exe, "--types"], timeout=30)
@@ -650,7 +650,22 @@ def _replay_search(exe, inputs, tries=300):
     if not types:
         return None
     keys = sorted(types)
+    model = inputs
     inputs = {k: {"type": types[k][0], "binary": "0" * types[k][1]} for k in keys}
+
+    def keep(k):
+        """first third of the tries keeps the model's structural values (0, 1, -1, flags) and randomises the rest, second third keeps each with probability 1/2, last third is fully random"""
+        b = (model.get(k) or {}).get("binary")
+        if not b or len(b) != types[k][1]:
+            return None
+        t = types[k][0]
+        if t == "float" and b in ("0" * 32, "1" + "0" * 31, "00111111100000000000000000000000", "10111111100000000000000000000000"):
+            return b
+        if t == "double" and b in ("0" * 64, "1" + "0" * 63, "0011111111110000" + "0" * 48, "1011111111110000" + "0" * 48):
+            return b
+        if t not in ("float", "double") and (len(b) == 1 or int(b, 2) in (0, 1)):
+            return b
+        return None
 
     def isfloat(v):
         return v.get("type") in ("float", "double")
@@ -662,6 +677,10 @@ def _replay_search(exe, inputs, tries=300):
         for k in keys:
             v = inputs[k]
             w = len(v.get("binary") or "") or 32
+            kb = keep(k) if n < tries // 3 else (keep(k) if n < 2 * tries // 3 and rnd.random() < 0.5 else None)
+            if kb is not None:
+                args.append("%s=%s" % (k, kb))
+                continue
             if isfloat(v) and w in (32, 64):
                 f = rnd.choice([rnd.uniform(-2, 2), rnd.uniform(-2, 2), rnd.uniform(-10, 10), float(rnd.randint(-3, 3)), rnd.uniform(0.1, 1.0)])
                 b = struct.unpack("<I", struct.pack("<f", f))[0] if w == 32 else struct.unpack("<Q", struct.pack("<d", f))[0]
